@@ -73,7 +73,7 @@ def rychlikRainflowCounting( data, aggregate=True ):
         
         right = data[ i + 1 ]
         j = i + 2
-        while ( j < len( data ) and data[ j ] < data[ i ] ):
+        while ( j < len( data ) and data[ j ] <= data[ i ] ):
             right = min( right, data[ j ] )
             j += 1
 
